@@ -766,14 +766,15 @@ func exec1(c px.Context, op string, args []sx.Sexp) core.Result {
 		}
 		kx, okx := keyOf(x)
 		ky, oky := keyOf(y)
-		if !keyableSexp(ex) || !keyableSexp(ey) {
+		if !keyableVal(x) || !keyableVal(y) {
 			// a TypedName, Deferred or Parameter (or a container of one) has no hash key at all: px.ToKey must report
 			// INVALID_MAP_KEY for it, and only the equivalence laws above apply
 			for _, p := range []struct {
 				e sx.Sexp
+				v px.Value
 				o string
-			}{{ex, okx}, {ey, oky}} {
-				if !keyableSexp(p.e) && p.o != "reported PCORE_INVALID_MAP_KEY" {
+			}{{ex, x, okx}, {ey, y, oky}} {
+				if !keyableVal(p.v) && p.o != "reported PCORE_INVALID_MAP_KEY" {
 					return pairFail(out, "key-of-unkeyable", "ToKey of "+p.e.String()+": "+p.o, ex, ey, x, y)
 				}
 			}
@@ -828,10 +829,10 @@ func exec1(c px.Context, op string, args []sx.Sexp) core.Result {
 		if _, out3 := keyOf(valOf(args[0])); out3 != out {
 			return core.Fail(out, "state-dependent", "key of a separately built copy "+out3)
 		}
-		if comparable(args[0]) && keyableSexp(args[0]) && !strings.HasPrefix(out, "x") {
+		if comparable(args[0]) && keyableVal(v) && !strings.HasPrefix(out, "x") {
 			return core.Fail(out, "key-fault", "ToKey of a comparable value: "+out)
 		}
-		if !keyableSexp(args[0]) && out != "reported PCORE_INVALID_MAP_KEY" {
+		if !keyableVal(v) && out != "reported PCORE_INVALID_MAP_KEY" {
 			return core.Fail(out, "key-of-unkeyable", "ToKey of a value without a hash key: "+out)
 		}
 		return res
@@ -846,7 +847,7 @@ func exec1(c px.Context, op string, args []sx.Sexp) core.Result {
 		var found bool
 		if err := safely(func() { got, found = h.Get(k) }); err != nil {
 			out := errClass(err)
-			if comparable(args[0]) && comparable(args[1]) && keyableSexp(args[0]) && keyableSexp(args[1]) {
+			if comparable(args[0]) && comparable(args[1]) && keyableVal(hv) && keyableVal(k) {
 				return core.Fail(out, "get-fault", "Hash.Get of a comparable key")
 			}
 			return core.Result{Out: out, Pred: "n/a", NonTrivial: true, Tags: []string{"get:fault"}}
@@ -907,7 +908,7 @@ func exec1(c px.Context, op string, args []sx.Sexp) core.Result {
 		var u px.List
 		if err := safely(func() { u = a.Unique() }); err != nil {
 			out := errClass(err)
-			if comparable(args[0]) && keyableSexp(args[0]) {
+			if comparable(args[0]) && keyableVal(av) {
 				return core.Fail(out, "unique-fault", "Unique over comparable values")
 			}
 			return core.Result{Out: out, Pred: "n/a", NonTrivial: true, Tags: []string{"unique:fault"}}
